@@ -34,6 +34,28 @@ func main() {
 		fmt.Print(txt)
 		return
 	}
+	if os.Args[1] == "transitions" {
+		// translate transitions <repo> [<outdir>]: only the state-machine tables; non-zero exit
+		// and a message naming the method/statement when the source is not understood
+		if len(os.Args) < 3 {
+			fmt.Fprintln(os.Stderr, "usage: translate transitions <repo> [<outdir>]")
+			os.Exit(2)
+		}
+		txt, err := genTransitionsOrStub(os.Args[2])
+		if len(os.Args) > 3 {
+			if werr := os.WriteFile(filepath.Join(os.Args[3], "Transitions.v"), []byte(txt), 0o644); werr != nil {
+				fmt.Fprintln(os.Stderr, werr)
+				os.Exit(2)
+			}
+		} else if err == nil {
+			fmt.Print(txt)
+		}
+		if err != nil {
+			fmt.Fprintf(os.Stderr, "translate Transitions.v: %v\n", err)
+			os.Exit(1)
+		}
+		return
+	}
 	repo, out := os.Args[1], os.Args[2]
 	gens := []struct {
 		name string
@@ -61,7 +83,24 @@ func main() {
 			failed = true
 		}
 	}
+	// Transitions.v is isolated: when the state-machine extraction fails the file becomes a stub
+	// with empty tables (only Proofs/TransitionsProofs.v and Properties/C02trans.v stop compiling),
+	// the message goes to stderr and the exit code is 3 unless something else failed too.
+	ttxt, terr := genTransitionsOrStub(repo)
+	tp := filepath.Join(out, "Transitions.v")
+	if old, _ := os.ReadFile(tp); string(old) != ttxt {
+		if err := os.WriteFile(tp, []byte(ttxt), 0o644); err != nil {
+			fmt.Fprintf(os.Stderr, "write %s: %v\n", tp, err)
+			failed = true
+		}
+	}
+	if terr != nil {
+		fmt.Fprintf(os.Stderr, "translate Transitions.v: %v\n", terr)
+	}
 	if failed {
 		os.Exit(1)
+	}
+	if terr != nil {
+		os.Exit(3)
 	}
 }
